@@ -2228,7 +2228,7 @@ func (r stack) traverseStackInCondition(u any, idx int, indices ...int) (slice a
 	if c, cOK := conditionTypeAliasConverter(u); cOK {
 		// End of the line :)
 		if len(indices) <= 1 {
-			slice = c
+			slice = u // the value as stored (e.g.: a Condition alias), just as Index returns it
 			ok = true
 			done = true
 		} else {
